@@ -2,6 +2,7 @@ package keeper
 
 import (
 	saodid "github.com/SaoNetwork/sao-did"
+	saodidparser "github.com/SaoNetwork/sao-did/parser"
 	sid "github.com/SaoNetwork/sao-did/sid"
 	saodidtypes "github.com/SaoNetwork/sao-did/types"
 	saodidutil "github.com/SaoNetwork/sao-did/util"
@@ -22,6 +23,27 @@ func (k Keeper) verifySignature(ctx sdk.Context, owner string, proposal Proposal
 	}
 
 	var querySidDocument = func(versionId string) (*sid.SidDocument, error) {
+		// the requested document version must be one of the owner's own versions,
+		// otherwise anybody could verify as owner with keys of his own sid document
+		ownerDid, err := saodidparser.Parse(owner)
+		if err != nil {
+			return nil, nil
+		}
+		versions, found := k.did.GetSidDocumentVersion(ctx, ownerDid.ID)
+		if !found {
+			return nil, nil
+		}
+		isOwnerVersion := false
+		for _, v := range versions.VersionList {
+			if v == versionId {
+				isOwnerVersion = true
+				break
+			}
+		}
+		if !isOwnerVersion {
+			return nil, nil
+		}
+
 		doc, found := k.did.GetSidDocument(ctx, versionId)
 		if found {
 			var keys = make([]*sid.PubKey, 0)
